@@ -114,7 +114,9 @@ func (c36) NewRun(plan *simrt.Source, job *harn.Job) harn.Run {
 }
 
 func (r *c36run) Strategy() simrt.Strategy              { return r.strat }
-func (r *c36run) Body(s *simrt.Sim)                      { r.runSeq(s) }
+func (r *c36run) CPUs() int { return []int{1, 2, 4, 16}[int(r.whash>>7)%4] }
+
+func (r *c36run) Body(s *simrt.Sim) { r.runSeq(s) }
 func (r *c36run) OnStep(s *simrt.Sim) *simrt.Failure     { return nil }
 func (r *c36run) StateSig() uint64                       { return 0 }
 func (r *c36run) OnQuiesce(s *simrt.Sim, n int) bool     { return false }
